@@ -37,11 +37,20 @@ def fam_hier(rng, domains=2):
     rng.shuffle(cand)
     recipe = []
     for k, bx in enumerate(cand[:domains]):
-        kind = rng.choice(['plain', 'poked', 'poked', 'inside', 'inside_or_wake', 'other'])
+        kind = rng.choice(['plain', 'poked', 'poked', 'poked_wide', 'inside', 'inside_not', 'inside_not', 'inside_wide', 'inside_or_wake', 'other', 'other_wide'])
         inside = [i for i in range(N) if below(home[i], bx)]
         outside = [i for i in range(N) if not below(home[i], bx)]
         en = None
-        if kind == 'poked' or (kind == 'inside' and not inside) or (kind == 'other' and not outside) or (kind == 'inside_or_wake' and not inside):
+        if kind in ('inside_wide', 'other_wide') and (inside if kind == 'inside_wide' else outside):
+            en = q[rng.choice(inside if kind == 'inside_wide' else outside)]        # a multi-bit enable: any non-zero value enables
+        elif kind in ('poked_wide', 'inside_wide', 'other_wide'):
+            en = hw.wire('gate%d' % k, rng.randint(2, 3)); ins.append(en); kind = 'poked_wide'
+        elif kind == 'inside_not' and inside:
+            src = q[rng.choice(inside)]                 # enabled until a register INSIDE the domain sets the bit: the domain stops itself
+            b1, en = hw.wire('enb%d' % k, 1), hw.wire('en%d' % k, 1); i = rng.randrange(W)
+            recipe.append(lambda src=src, i=i, b1=b1, k=k: py4hw.Bit(hw, 'enbit%d' % k, src, i, b1))
+            recipe.append(lambda b1=b1, en=en, k=k: py4hw.Not(hw, 'ennot%d' % k, b1, en))
+        elif kind == 'poked' or kind == 'inside_not' or (kind == 'inside' and not inside) or (kind == 'other' and not outside) or (kind == 'inside_or_wake' and not inside):
             if kind != 'plain':
                 en = hw.wire('gate%d' % k, 1); ins.append(en); kind = 'poked'
         elif kind == 'inside' or kind == 'other':
